@@ -195,10 +195,24 @@ NEEDS.update({
 })
 os.makedirs("/verif/seeded", exist_ok=True)
 rows=[]
+NEEDS.update({
+ "R12_C08_1":"BoxedMontyForm::lincomb_vartime over two or more products on a modulus with its top bit set (e.g. 2^BITS-1) whose partial sums overflow 2^BITS (carry of the accumulation dropped)",
+ "R12_C08_2":"MontyParams::new_vartime for the modulus 1 (one = ((2^BITS-1) mod m) + 1 = 1, not below m)",
+ "R12_C11_1":"a DER INTEGER wider than the target type (saturating_sub instead of checked_sub: copy_from_slice panics in both profiles)",
+ "R12_C11_2":"the debug-assertion profile and a serialized ConstMontyForm record holding a value >= the modulus (two cooperating edits: debug_assert in from_montgomery, deserialize goes through it before its check)",
+ "R12_C12_1":"a build without debug assertions and NonZero::<Uint>::new_unwrap(ZERO) (zero check demoted to debug_assert)",
+ "R12_C12_2":"a single-limb carrier and NonZero::<U64>::from_u128 / From<NonZeroU128> with a multiple of 2^64 (from_u128 truncates silently)",
+ "R12_C16_1":"BoxedUint::from_le_slice with a full-length input at a precision that is not a multiple of 8 (top-byte check on the wrong end)",
+ "R12_C16_2":"a human-readable serde format: Deserialize for Uint reads big-endian while Serialize writes little-endian",
+ "R12_C18_1":"the TryFrom<AnyRef> entry point with a non-canonical, negative or empty INTEGER body (from_der stays strict)",
+ "R12_C18_2":"to_der of a value whose bit length is a multiple of 8 but not of the limb width (0x80, 0xffff, 2^71): value_len one short of encode_value",
+ "R12_C19_1":"BoxedUint::try_random_bits_with_precision with a precision that is not a multiple of 64 and a bit_length between it and the limb-rounded precision",
+ "R12_C19_2":"Limb::random_mod with a modulus >= 256 that is not a power of two, after a rejected candidate (only the top byte is redrawn), seen in the distribution or the bytes consumed",
+})
 for name, needs in NEEDS.items():
     parts = name.split("_")
     prop, i = parts[-2], parts[-1]
-    src=f"/tmp/wt2_{prop}/seeded_out/{i}" if name.startswith("R2_") else (f"/tmp/wt3_{prop}/seeded_out/{i}" if name.startswith("R3_") else (f"/tmp/wt4_{prop}/seeded_out/{i}" if name.startswith("R4_") else (f"/tmp/wt5_{prop}/seeded_out/{i}" if name.startswith("R5_") else f"/tmp/wt6_{prop}/seeded_out/{i}" if name.startswith("R6_") else f"/tmp/wt7_{prop}/seeded_out/{i}" if name.startswith("R7_") else f"/tmp/wt8_{prop}/seeded_out/{i}" if name.startswith("R8_") else f"/tmp/wt9_{prop}/seeded_out/{i}" if name.startswith("R9_") else f"/tmp/wt10_{prop}/seeded_out/{i}" if name.startswith("R10_") else f"/tmp/wt11_{prop}/seeded_out/{i}" if name.startswith("R11_") else f"/tmp/wt_{prop}/seeded_out/{i}")))
+    src=f"/tmp/r12/{name}" if name.startswith("R12_") else f"/tmp/wt2_{prop}/seeded_out/{i}" if name.startswith("R2_") else (f"/tmp/wt3_{prop}/seeded_out/{i}" if name.startswith("R3_") else (f"/tmp/wt4_{prop}/seeded_out/{i}" if name.startswith("R4_") else (f"/tmp/wt5_{prop}/seeded_out/{i}" if name.startswith("R5_") else f"/tmp/wt6_{prop}/seeded_out/{i}" if name.startswith("R6_") else f"/tmp/wt7_{prop}/seeded_out/{i}" if name.startswith("R7_") else f"/tmp/wt8_{prop}/seeded_out/{i}" if name.startswith("R8_") else f"/tmp/wt9_{prop}/seeded_out/{i}" if name.startswith("R9_") else f"/tmp/wt10_{prop}/seeded_out/{i}" if name.startswith("R10_") else f"/tmp/wt11_{prop}/seeded_out/{i}" if name.startswith("R11_") else f"/tmp/wt_{prop}/seeded_out/{i}")))
     res_p=f"/tmp/seed_logs/{name}.json"
     if not (os.path.isdir(src) and os.path.exists(res_p)):
         if not os.path.exists(f"/verif/seeded/{name}/meta.json"): print("missing", name)
@@ -226,9 +240,9 @@ for name, needs in NEEDS.items():
       "caught_by":caught,
       "first_violations_reported":first,
     }
-    if name[:3] in ("R6_","R7_","R8_","R9_") or name.startswith("R10_") or name.startswith("R11_"):
+    if name[:3] in ("R6_","R7_","R8_","R9_") or name.startswith("R10_") or name.startswith("R11_") or name.startswith("R12_"):
         meta["written_by"]="independent sub-agent given the property text, a scratch worktree, and (rounds 6 to 11) a list of the kinds of change earlier rounds had already tried, so that it would look elsewhere; nothing from /verif"
-        meta["confirmed_by_me"]["worktree"]=meta["confirmed_by_me"]["worktree"].replace("/tmp/wt_eval ","/tmp/wt_eval or /tmp/wt_eval2 ")
+        meta["confirmed_by_me"]["worktree"]=meta["confirmed_by_me"]["worktree"].replace("/tmp/wt_eval ","/tmp/wt_eval, /tmp/wt_eval1..3 or /tmp/wt_eval2 ")
     old_p=os.path.join(dst,"meta.json")
     if os.path.exists(old_p):
         try:
